@@ -105,7 +105,7 @@ def generate(job):
         for _ in range(n):
             k = ro.weighted([("fit", 6), ("set_params", 2), ("reinit", 1), ("save_restart", 3), ("fit_interrupted", 1.5)])
             if k == "fit":
-                ops.append({"k": "fit", "method": ro.choice(FAST), "maxiter": ro.choice([1, 2, 3, 5, 8]), "grad_scale": ro.choice([1.0, 1.0, 2.0]), "jac": ro.choice([True, True, True, True, "2-point"])})
+                ops.append({"k": "fit", "method": ro.choice(FAST), "maxiter": ro.choice([1, 2, 3, 5, 8]), "grad_scale": ro.choice([1.0, 1.0, 2.0]), "jac": ro.choice([True, True, True, True, "2-point"]), "monitor": ro.chance(0.25)})
             elif k == "fit_interrupted":
                 ops.append({"k": "fit_interrupted", "method": ro.choice(["BFGS", "BFGS", "CG", "L-BFGS-B"]), "after": ro.choice([1, 2, 3]), "how": ro.choice(["callback", "callback", "large_number"])})
             elif k == "set_params":
@@ -298,6 +298,16 @@ class Session:
         mkey = method
         try:
             kw = {}
+            if op.get("monitor") and method in ("BFGS", "CG"):
+                # a user callback that monitors the NLL of a reference point: FCN.__call__(params) writes that
+                # point into the model, the fit must still end at ITS point
+                ref_point = dict(before)
+
+                def monitor(x, fcn):
+                    fcn(ref_point)
+
+                kw["callback"] = monitor
+                log.count("fault.callback_with_side_effects")
             if op.get("jac", True) is not True and method in ("BFGS", "CG"):
                 kw["jac"] = op["jac"]
                 mkey = method + "(jac=%s)" % op["jac"]
